@@ -77,9 +77,17 @@ def check(run, replay=None):
     # every command variant at least with a plain and an ambiguous string and a number
     allc = sorted((e for t, e in gen["emitted"] if t == "CASE"), key=lambda c: json.dumps(c, sort_keys=True))
     must = [c for c in allc if c["cls"] in ("int_like", "multiline", "float_1e21", "escape_like", "html_chars") and c["pos"] in ("default", "extension", "propname")]
+    # numbers at the edge of float64 / int64 through every command (the YAML writer of each command is its own code)
+    must += [c for c in allc if c["num"] and c["cls"] in ("big_int_2p53p1", "uint64_max", "float_1e21")]
     cases += [c for c in must if c not in cases]
     pkg = run.scratch_module("emptypkg", modname="scratch/emptypkg")
-    open(os.path.join(pkg, "main.go"), "w").write("// Package main has no swagger annotations.\npackage main\n\nfunc main() {}\n")
+    # the scanned package contributes numbers of its own, held in typed (int64) fields of the document:
+    # bounds above 2^53 must come out the same in the JSON and in the YAML rendering
+    open(os.path.join(pkg, "main.go"), "w").write(
+        "// Package main carries one annotated model.\npackage main\n\nfunc main() {}\n\n"
+        "// Big has bounds that do not fit a float64 exactly.\n//\n// swagger:model big\ntype Big struct {\n"
+        "\t// max length: 9007199254740993\n\t// min length: 1\n\tCode string `json:\"code\"`\n"
+        "\t// max items: 9223372036854775807\n\tTags []string `json:\"tags\"`\n}\n")
     mixp = run.path("mix.json"); json.dump(MIX, open(mixp, "w"))
 
     def digest(files):
@@ -132,7 +140,7 @@ def check(run, replay=None):
                 elif c["cmd"] == "mixin_sec_keeporder":
                     cmd = [swagger, "mixin", mixp, ip, "-o", op, "--format", of, "--keep-spec-order"]
                 else:
-                    cmd = [swagger, "generate", "spec", "-w", pkg, "-i", ip, "-o", op]
+                    cmd = [swagger, "generate", "spec", "-m", "-w", pkg, "-i", ip, "-o", op]
                 if compact:
                     cmd.append("--compact")
                 g = run.sh(cmd, cwd=pkg if c["cmd"] == "genspec" else wd, check=False, timeout=300)
